@@ -22,18 +22,20 @@
      - float values (f prefix where the helper accepts one: OP_PUSH1-type, OP_PUSH2, OP_DIV_FLOAT);
      - "@= name [ vals ]" (the bracket form re-tokenises the joined values through get_symbols);
      - OP_WRITE_CACHE d-keys >= 2^40 (the key size is ceil(log2(k+1)/8) in floating point);
-     - symbols with non-ASCII characters outside s-values (str.isalnum / isnumeric / upper are
-       modelled for ASCII only);
+     - symbols with non-ASCII, blank or control characters outside s-values (str.isalnum /
+       isnumeric / upper are modelled for ASCII only; int() and bytes.fromhex() skip whitespace;
+       get_symbols never produces a symbol with whitespace outside an s-value);
      - exhaustion of the recursion fuel (never happens: see [assemble_r]).
    Plugins (additional_opcodes) are not modelled: with none installed the Python raises ValueError
    ("unrecognized opname") for OP_IF_ELSE / OP_TRY_EXCEPT used as instruction names; so does the model.
-   Whitespace inside x-values (accepted by bytes.fromhex) and around int() arguments cannot occur in
-   symbols produced by get_symbols and is rejected by the model.
 
    ODDITIES OF THE PYTHON MIRRORED HERE (see the comments at each definition):
      O1  OP_PUSH1 / OP_PUSH2 look at the SECOND symbol after the name: if it does not look like an
-         instruction name or a special symbol it is taken as the value and the first symbol (the
-         "size") is ignored without any check; if fewer than two symbols follow: IndexError.
+         instruction name or a special symbol it is taken as the value and the first symbol is the
+         explicit size, which must be d<int> or x<hex> and equal the length of the value
+         (_check_push_size; before that fix the size symbol was ignored without any check, so that
+         "push1 x0102 x0304 true" silently dropped a value); if fewer than two symbols follow:
+         IndexError.
      O2  parse_def prefixes "OP_" to every symbol that is an alias key, so the OP_-prefixed short
          aliases (OP_ADD, OP_RCZ, OP_CS, ...) are rejected directly inside a DEF body.
      O3  parse_if / parse_else / parse_try / parse_except / parse_loop accept "}" as well as their
@@ -90,7 +92,10 @@ Definition nonempty (s : string) : bool := match s with EmptyString => false | _
 (* str.isnumeric / str.isalnum on ASCII strings *)
 Definition isnumeric (s : string) : bool := nonempty s && sall is_digit s.
 Definition isalnum (s : string) : bool := nonempty s && sall is_alnum_c s.
-Definition is_ascii_s (s : string) : bool := sall (fun c => (N_of_ascii c <? 128)%N) s.
+(* printable ASCII without the space: the characters that can occur in a symbol outside s-values
+   (str.split() has removed every kind of whitespace) *)
+Definition plain_c (c : ascii) : bool := let n := N_of_ascii c in (32 <? n)%N && (n <? 128)%N.
+Definition is_ascii_s (s : string) : bool := sall plain_c s.
 
 (* int(s) for a string of ASCII digits (the caller has checked isnumeric) *)
 Definition digits_Z (s : string) : option Z :=
@@ -293,15 +298,36 @@ Section Assembler.
     end.
 
   (* ----- _get_OP_PUSH1_type_args: [len:1][val] -----
-     which symbol is the value: for OP_PUSH1 the test on symbols[1] (O1), else symbols[0] *)
-  Definition pick_val (two_forms : bool) (syms : list string) : res (nat * string) :=
+     which symbol is the value: for OP_PUSH1 the test on symbols[1] (O1), else symbols[0];
+     the third component is the explicit size symbol of the form "name size value" *)
+  Definition pick_val (two_forms : bool) (syms : list string) : res (nat * string * option string) :=
     if two_forms then
       match syms with
-      | s0 :: s1 :: _ => if oplike s1 then Ok (2%nat, s0) else Ok (3%nat, s1)
+      | s0 :: s1 :: _ => if oplike s1 then Ok (2%nat, s0, None) else Ok (3%nat, s1, Some s0)
       | _ => Err                                   (* symbols[1]: IndexError *)
       end
     else
-      match syms with s0 :: _ => Ok (2%nat, s0) | [] => Err end.
+      match syms with s0 :: _ => Ok (2%nat, s0, None) | [] => Err end.
+
+  (* _check_push_size(opname, size_symbol, value, ...):
+       yert(len(size_symbol) > 1 and size_symbol[0].lower() in ('d', 'x'))
+       d: size = int(size_symbol[1:])  (any int() literal; "d2.0" raises ValueError)
+       x: size = int.from_bytes(bytes.fromhex(size_symbol[1:]), 'big')  (odd length raises ValueError)
+       yert(size == len(value)) *)
+  Definition check_push_size (size_symbol : option string) (v : bytes) : res unit :=
+    match size_symbol with
+    | None => Ok tt
+    | Some (String c r) =>
+      if nonempty r then
+        let c' := lower_c c in
+        if Ascii.eqb c' "d" then
+          rbind (of_opt (py_int r)) (fun z => if z =? blen v then Ok tt else Err)
+        else if Ascii.eqb c' "x" then
+          rbind (of_opt (unhex_ci r)) (fun b => if be_to_Z b =? blen v then Ok tt else Err)
+        else Err
+      else Err
+    | Some EmptyString => Err
+    end.
 
   (*   d: vert(val[1:].lstrip('+-').replace('.','').isnumeric());
           int_to_bytes(int(val[1:].split('.')[0]))
@@ -318,9 +344,10 @@ Section Assembler.
       else Err).
 
   Definition args_push1 (is_push1 : bool) (syms : list string) : res (nat * bytes) :=
-    rbind (pick_val is_push1 syms) (fun '(adv, val) =>
+    rbind (pick_val is_push1 syms) (fun '(adv, val, size) =>
     rbind (val_var1 val) (fun v =>
-    rbind (len1_r v) (fun l => Ok (adv, l ++ v)))).
+    rbind (len1_r v) (fun l =>
+    rbind (check_push_size size v) (fun _ => Ok (adv, l ++ v))))).
 
   (* ----- _get_OP_PUSH2_args: [len:2][val] -----
        d: vert(val[1:].lstrip('+-').isnumeric()); int_to_bytes(int(..)); vert(len < 65536)
@@ -335,9 +362,10 @@ Section Assembler.
       else Err).
 
   Definition args_push2 (syms : list string) : res (nat * bytes) :=
-    rbind (pick_val true syms) (fun '(adv, val) =>
+    rbind (pick_val true syms) (fun '(adv, val, size) =>
     rbind (val_push2 val) (fun v =>
-    rbind (len2_r v) (fun l => Ok (adv, l ++ v)))).
+    rbind (len2_r v) (fun l =>
+    rbind (check_push_size size v) (fun _ => Ok (adv, l ++ v))))).
 
   (* ----- _get_OP_PUSH_args + the opcode choice of parse_next: the whole instruction -----
        d: vert(val[1:].isnumeric() or (val[1] == '-' and val[2:].isnumeric())) (val[1]: IndexError
@@ -781,7 +809,7 @@ Section Assembler.
     end.
 
   (* parse_comptime is the identity unless a symbol is "~", "~!" or "!="; s-values may hold any
-     bytes, every other symbol must be ASCII *)
+     bytes, every other symbol must be printable ASCII without blanks *)
   Definition unmodelled_symbol (s : string) : bool :=
     mem s ["~"; "~!"; "!="]
     || (negb (is_ascii_s s)
@@ -824,3 +852,156 @@ Definition norm_token (t : string) : string :=
    cd /repo && PYTHONPATH=/repo /venv/bin/python -c "from tapescript import parsing as P; ..."
    each [syms] is parsing.get_symbols(source), each result parsing.compile_script(source).hex() *)
 Definition asm_hex (syms : list string) : option string := option_map hex (assemble fl2_exact syms).
+
+Local Open Scope string_scope.
+
+(* the expected results are those of the compiler WITH the _check_push_size fix.
+   accepted sources (13 and 14 are accepted although they should not be: see the findings in
+   proofs/AssemblerProofs.v), then rejected ones (15 to 17: size operand of OP_PUSH1 / OP_PUSH2 that is
+   not the length of the value, mis-assembled before the fix; 18 to 21 are rejected although they
+   should not be) *)
+(* if ( true ) { push d1 } else { push x0102 } @= k 1 @k *)
+Example selftest_01 : asm_hex
+  ["IF"; "("; "TRUE"; ")"; "{"; "PUSH"; "d1"; "}"; "ELSE"; "{"; "PUSH"; "x0102"; "}"; "@="; "k"; "1"; "@k"]
+  = Some "012c0002020100040302010209016b010a016b".
+Proof. vm_compute. reflexivity. Qed.
+(* push d128 push d-1 push x0a push s"hi there" push sabc *)
+Example selftest_02 : asm_hex
+  ["PUSH"; "d128"; "PUSH"; "D-1"; "PUSH"; "x0a"; "PUSH"; "s""hi there"""; "PUSH"; "SABC"]
+  = Some "0302008002ff020a030868692074686572650303414243".
+Proof. vm_compute. reflexivity. Qed.
+(* op_push1 d2 x0102 push1 x0102 true push2 x0001 s'q' push1 d+3 sabc op_false *)
+Example selftest_03 : asm_hex
+  ["OP_PUSH1"; "d2"; "x0102"; "PUSH1"; "x0102"; "TRUE"; "PUSH2"; "x0001"; "s'q'"; "PUSH1"; "D+3"; "SABC"; "OP_FALSE"]
+  = Some "03020102030201020104000171030341424300".
+Proof. vm_compute. reflexivity. Qed.
+(* add_ints d-5 OP_ADD x7f sub d+3 check_sig x cs X0A nop200 d1 NOP255 xff *)
+Example selftest_04 : asm_hex
+  ["ADD_INTS"; "D-5"; "OP_ADD"; "x7f"; "SUB"; "D+3"; "CHECK_SIG"; "x"; "CS"; "X0A"; "NOP200"; "d1"; "NOP255"; "xff"]
+  = Some "0efb0e7f0f032300230ac801ffff".
+Proof. vm_compute. reflexivity. Qed.
+(* write_cache d300 d1 write_cache s"ab" x0001 rcz x6b @#key9 @= key9 007 *)
+Example selftest_05 : asm_hex
+  ["WRITE_CACHE"; "d300"; "d1"; "WRITE_CACHE"; "s""ab"""; "x0001"; "RCZ"; "x6b"; "@#key9"; "@="; "key9"; "007"]
+  = Some "0902012c0109026162010b016b0b046b65793909046b65793907".
+Proof. vm_compute. reflexivity. Qed.
+(* swap d1 x02 cms x00 d2 d3 merkleval x1f1f1f1f1f1f1f1f1f1f1f1 ... *)
+Example selftest_06 : asm_hex
+  ["SWAP"; "d1"; "x02"; "CMS"; "x00"; "d2"; "d3"; "MERKLEVAL"; "x1f1f1f1f1f1f1f1f1f1f1f1f1f1f1f1f1f1f1f1f1f1f1f1f1f1f1f1f1f1f1f1f"; "DIV_FLOAT"; "x3f800000"; "DIV_INT"; "D1.5"; "MOD_INT"; "D-300"]
+  = Some "340102460002033c1f1f1f1f1f1f1f1f1f1f1f1f1f1f1f1f1f1f1f1f1f1f1f1f1f1f1f1f1f1f1f1f173f8000001101011302fed4".
+Proof. vm_compute. reflexivity. Qed.
+(* def 0 { rcz x01 add d1 } def d7 true end_def def xff { } call d0 *)
+Example selftest_07 : asm_hex
+  ["DEF"; "0"; "{"; "RCZ"; "x01"; "ADD"; "d1"; "}"; "DEF"; "d7"; "TRUE"; "END_DEF"; "DEF"; "xff"; "{"; "}"; "CALL"; "d0"]
+  = Some "290000050b01010e01290700010129ff00002a00".
+Proof. vm_compute. reflexivity. Qed.
+(* if true else false end_if if { true } if true end_if if { dup } else not end_if *)
+Example selftest_08 : asm_hex
+  ["IF"; "TRUE"; "ELSE"; "FALSE"; "END_IF"; "IF"; "{"; "TRUE"; "}"; "IF"; "TRUE"; "END_IF"; "IF"; "{"; "DUP"; "}"; "ELSE"; "NOT"; "END_IF"]
+  = Some "2c0001010001002b0001012b0001012c00011d00012e".
+Proof. vm_compute. reflexivity. Qed.
+(* try { true } try { true } except { false } try true except false end_except *)
+Example selftest_09 : asm_hex
+  ["TRY"; "{"; "TRUE"; "}"; "TRY"; "{"; "TRUE"; "}"; "EXCEPT"; "{"; "FALSE"; "}"; "TRY"; "TRUE"; "EXCEPT"; "FALSE"; "END_EXCEPT"]
+  = Some "3d00010100003d0001010001003d000101000100".
+Proof. vm_compute. reflexivity. Qed.
+(* loop { if { true end_if } loop size end_loop *)
+Example selftest_10 : asm_hex
+  ["LOOP"; "{"; "IF"; "{"; "TRUE"; "END_IF"; "}"; "LOOP"; "SIZE"; "END_LOOP"]
+  = Some "4500042b00010145000108".
+Proof. vm_compute. reflexivity. Qed.
+(* if ( if ( true ) { false } ) { true } else { if ( dup ) not end_if } *)
+Example selftest_11 : asm_hex
+  ["IF"; "("; "IF"; "("; "TRUE"; ")"; "{"; "FALSE"; "}"; ")"; "{"; "TRUE"; "}"; "ELSE"; "{"; "IF"; "("; "DUP"; ")"; "NOT"; "END_IF"; "}"]
+  = Some "012b0001002c00010100051d2b00012e".
+Proof. vm_compute. reflexivity. Qed.
+(* true # this is a comment # false " another ' one " dup *)
+Example selftest_12 : asm_hex
+  ["TRUE"; "#"; "THIS"; "IS"; "A"; "COMMENT"; "#"; "FALSE"; """"; "ANOTHER"; "'"; "ONE"; """"; "DUP"]
+  = Some "01001d".
+Proof. vm_compute. reflexivity. Qed.
+(* def 0 { if { def 1 { true } } } *)
+Example selftest_13 : asm_hex
+  ["DEF"; "0"; "{"; "IF"; "{"; "DEF"; "1"; "{"; "TRUE"; "}"; "}"; "}"]
+  = Some "290000082b00052901000101".
+Proof. vm_compute. reflexivity. Qed.
+(* if { if { true } *)
+Example selftest_14 : asm_hex
+  ["IF"; "{"; "IF"; "{"; "TRUE"; "}"]
+  = Some "2b00042b000101".
+Proof. vm_compute. reflexivity. Qed.
+(* push1 d99 x0102 true *)
+Example selftest_15 : asm_hex
+  ["PUSH1"; "d99"; "x0102"; "TRUE"]
+  = None.
+Proof. vm_compute. reflexivity. Qed.
+(* push1 x0102 x0304 true *)
+Example selftest_16 : asm_hex
+  ["PUSH1"; "x0102"; "x0304"; "TRUE"]
+  = None.
+Proof. vm_compute. reflexivity. Qed.
+(* push2 d2.0 x0102 true *)
+Example selftest_17 : asm_hex
+  ["PUSH2"; "D2.0"; "x0102"; "TRUE"]
+  = None.
+Proof. vm_compute. reflexivity. Qed.
+(* def 0 { op_rcz x01 } *)
+Example selftest_18 : asm_hex
+  ["DEF"; "0"; "{"; "OP_RCZ"; "x01"; "}"]
+  = None.
+Proof. vm_compute. reflexivity. Qed.
+(* try true end_try *)
+Example selftest_19 : asm_hex
+  ["TRY"; "TRUE"; "END_TRY"]
+  = None.
+Proof. vm_compute. reflexivity. Qed.
+(* loop push1 x01 end_loop *)
+Example selftest_20 : asm_hex
+  ["LOOP"; "PUSH1"; "x01"; "END_LOOP"]
+  = None.
+Proof. vm_compute. reflexivity. Qed.
+(* push1 x0102 *)
+Example selftest_21 : asm_hex
+  ["PUSH1"; "x0102"]
+  = None.
+Proof. vm_compute. reflexivity. Qed.
+(* add_ints d128 *)
+Example selftest_22 : asm_hex
+  ["ADD_INTS"; "d128"]
+  = None.
+Proof. vm_compute. reflexivity. Qed.
+(* swap d256 d0 *)
+Example selftest_23 : asm_hex
+  ["SWAP"; "d256"; "d0"]
+  = None.
+Proof. vm_compute. reflexivity. Qed.
+(* true } *)
+Example selftest_24 : asm_hex
+  ["TRUE"; "}"]
+  = None.
+Proof. vm_compute. reflexivity. Qed.
+(* if { true *)
+Example selftest_25 : asm_hex
+  ["IF"; "{"; "TRUE"]
+  = None.
+Proof. vm_compute. reflexivity. Qed.
+(* foo *)
+Example selftest_26 : asm_hex
+  ["FOO"]
+  = None.
+Proof. vm_compute. reflexivity. Qed.
+(* if_else *)
+Example selftest_27 : asm_hex
+  ["IF_ELSE"]
+  = None.
+Proof. vm_compute. reflexivity. Qed.
+(* def 0 { def 1 { true } } *)
+Example selftest_28 : asm_hex
+  ["DEF"; "0"; "{"; "DEF"; "1"; "{"; "TRUE"; "}"; "}"]
+  = None.
+Proof. vm_compute. reflexivity. Qed.
+(* nop91 d1 *)
+Example selftest_29 : asm_hex
+  ["NOP91"; "d1"]
+  = None.
+Proof. vm_compute. reflexivity. Qed.
